@@ -268,15 +268,16 @@ inductive WaitRes
   | conn
 deriving DecidableEq, Repr
 
-/-- a consumer suspended in `queue.get()`: woken by an observation point that queued something; looks at what
-    is queued; goes on waiting (after the `_is_closed` test) when the awaited frame is not there -/
+/-- a consumer suspended in `queue.get()`: woken by an observation point that queued something - frames, or the
+    end-of-stream marker `close()` leaves when the reader task dies; looks at what is queued; goes on waiting (after
+    the `_is_closed` test) when the awaited frame is not there -/
 def block (c : Cfg) (p : Frame → Bool) (deadline : Nat) : St → List Ev → WaitRes × St × List Ev
   | s, [] => (.timeout, { s with now := max s.now deadline }, [])
   | s, e :: es =>
     if deadline ≤ e.t then (.timeout, { s with now := max s.now deadline }, e :: es)
     else
       let s1 := s.absorb c e
-      if e.frames.isEmpty then block c p deadline s1 es
+      if e.frames.isEmpty && !e.died then block c p deadline s1 es
       else
         match findSplit p s1.queue with
         | some (pre, f, post) => (.got f, { s1 with queue := requeueFront pre post }, es)
